@@ -462,3 +462,34 @@ FIXED_CFG = [
     focus_case([_m(5, "email", None, None, None)], "set"),
     focus_case([_m(5, "null", 0, None, None), _m(6, "null", None, None, None)], "set"),
 ]
+
+
+# ---- the session publisher (zookeeper coordinator mainLoop) -------------------------------------------------------
+
+ZK_STATES = ["exp", "con", "dis", "cing", "has", "ro"]
+
+
+def gen_zk(rng, idx):
+    """A sequence of zk.Events as the client library delivers them: expiry cycles (dis, exp, cing, con, has), connection
+    losses without expiry, repeated / out-of-order states, node events carrying session-like states."""
+    conn0 = rng.random() < 0.8
+    evs = []
+    tags = set()
+    for _ in range(rng.randrange(1, 5)):
+        r = rng.random()
+        if r < 0.45:
+            evs += [("s", "dis"), ("s", "exp"), ("s", "cing"), ("s", "con"), ("s", "has")][rng.randrange(0, 2):rng.randrange(2, 6)]
+            tags.add("expiry-cycle")
+        elif r < 0.65:
+            evs += [("s", "dis"), ("s", "cing"), ("s", "con"), ("s", "has")]
+            tags.add("reconnect-without-expiry")
+        elif r < 0.8:
+            evs += [("s", "exp"), ("s", "exp")] if rng.random() < 0.5 else [("s", "con"), ("s", "con")]
+            tags.add("repeated")
+        else:
+            evs.append(("n", rng.choice(ZK_STATES)))
+            tags.add("node-event")
+        if rng.random() < 0.3:
+            evs.append((rng.choice(["s", "s", "n"]), rng.choice(ZK_STATES)))
+            tags.add("random-state")
+    return "zk %d %d %s" % (1 if conn0 else 0, len(evs), " ".join("%s %s" % e for e in evs)), sorted(tags)
